@@ -17,6 +17,7 @@ from pbsym.models import mp as mpm
 from harness.C08 import run_world, scenario, _d_ok, _l_ok, LIFE, TIMEOUT_S, BEH, QB, TB, TWIDE
 
 PROPERTY = 'C13'
+TECHNIQUE = 'CrossHair/z3 symbolic execution of the real Equalizer in the discrete-event multiprocessing model: virtual-time bounds, recycle rate, worker leak and would-hang detection'
 FUNCTIONS = ['playback/studio/equalizer.py::Equalizer.run_comparison',
              'playback/studio/equalizer.py::Equalizer._play_and_compare_recording_within_worker',
              'playback/studio/equalizer.py::Equalizer._handle_compare_execution_timeout',
